@@ -57,6 +57,60 @@ def withCS (rest : List String) (k : M6 Rat → M6 Rat → List String → Strin
     | none => err "value"
     | some s => let ts := Tab.of6 s; k c ts.get6 more
 
+/-- split a token list at the `;` tokens. -/
+def splitSemi (l : List String) : List (List String) :=
+  l.foldr (fun t acc => if t = ";" then [] :: acc else
+    match acc with
+    | [] => [[t]]
+    | g :: gs => (t :: g) :: gs) [[]]
+
+def tab6 (xs : List Rat) : M6 Rat := let t := Tab.of6 (m6 xs); t.get6
+def tab4 (xs : List Rat) : T4 Rat := let t := Tab.of4 (t4 xs); t.get4
+
+/-- one operation of a `seq` request. -/
+def parseOp (toks : List String) : Option (Op Rat) :=
+  match toks with
+  | ["get", "cij"] => some .getCij
+  | ["get", "cij9"] => some .getCij9
+  | ["get", "cijkl"] => some .getCijkl
+  | ["get", "sij"] => some .getSij
+  | ["get", "sijkl"] => some .getSijkl
+  | ["est", which, style] => some (.est which style)
+  | ["norm", sys] => some (.norm sys)
+  | ["isn", sys, rt, at'] =>
+    match parseRat? rt, parseRat? at' with
+    | some r, some a => some (.isn sys r a)
+    | _, _ => none
+  | "tr" :: rest =>
+    match parseRats? rest with
+    | some xs =>
+      if xs.length ≠ 12 ∧ xs.length ≠ 13 then none else
+      let axes : M33 Rat := m33 (xs.take 9)
+      let nl := (xs.drop 9).take 3
+      some (.tr (if xs.length = 13 then some (xs.getD 12 0) else none) axes (fun i => nl.getD i.val 1))
+    | none => none
+  | "set" :: "named" :: keys :: nv :: rest =>
+    match nv.toNat?, parseRats? rest with
+    | some n, some xs => if xs.length < n then none else some (.putNamed keys (xs.take n) (xs.drop n))
+    | _, _ => none
+  | "set" :: what :: rest =>
+    match parseRats? rest with
+    | none => none
+    | some xs =>
+      if what = "cij" ∧ xs.length = 36 then some (.putCij (tab6 xs))
+      else if what = "sij" ∧ xs.length = 36 then some (.putSij (tab6 xs))
+      else if what = "cij9" ∧ xs.length = 81 then some (.putCij9 (m9 xs))
+      else if what = "cijkl" ∧ xs.length = 81 then some (.putCijkl (tab4 xs))
+      else if what = "sijkl" ∧ xs.length = 81 then some (.putSijkl (tab4 xs))
+      else none
+  | _ => none
+
+def showObs (r : Except String (List Rat)) : String :=
+  match r with
+  | .ok [] => "ok"
+  | .ok xs => "ok " ++ showRats xs
+  | .error e => errOf e
+
 end C11Drv
 open C11Drv
 
@@ -138,6 +192,12 @@ def handleC11 (toks : List String) : String :=
           | .ok b => showBool b
           | .error e => errOf e
       | _ => err "format"
+  | "seq" :: rest =>
+    -- one object, initially `ElasticConstants()` (all zeros); operations separated by `;`
+    let groups := (splitSemi rest).filter (· ≠ [])
+    match groups.mapM parseOp with
+    | none => err "format"
+    | some ops => " | ".intercalate ((run inv6 (fun _ _ => (0 : Rat)) ops).map showObs)
   | "estimate" :: which :: style :: rest =>
     withC rest fun c _ =>
       let needS := style ≠ "Voigt"
